@@ -327,12 +327,16 @@ def run_geo(c):
                 shared = None
         o, same = _call_geo(c, rng, shared)
         same = same and same_h
-        cols = [np.asarray(a, dtype="f8").ravel() for a in o]
+        cols = [np.array(a, dtype="f8").ravel().copy() for a in o]
         out = {"ok": True, "ncols": len(cols), "lens": [int(a.size) for a in cols],
                "points": [[float(a[i]) for a in cols] for i in range(min(int(a.size) for a in cols))],
                "inputs_unchanged": bool(same)}
-        if c.get("form") is not None:
-            # a second call with the same arguments and an equal generator must give the same arrays
+        if c.get("form") is not None or c["gen"] in STUBS:
+            # OWNERSHIP: the caller overwrites the arrays it was handed back, then calls again with the same arguments and
+            # an equal generator: the second result must be byte-identical to the first (no buffer shared with an earlier result)
+            for a in o:
+                if isinstance(a, np.ndarray) and a.flags.writeable and a.dtype.kind == "f":
+                    a[...] = np.nan
             o2, _ = _call_geo(c, c19_rng.make(c["gen"], c.get("seed"), flat), shared)
             cols2 = [np.asarray(a, dtype="f8").ravel() for a in o2]
             out["repeat_identical"] = bool(len(cols2) == len(cols) and all(a.tobytes() == b.tobytes() for a, b in zip(cols, cols2)))
@@ -1101,7 +1105,12 @@ class GeneratorEntry(ParEntry):
             elif c.get("split"):
                 vals = []
                 for k in c["split"]:
-                    vals += [float(g.sample())] if k is None else [float(v) for v in g.sample(k)]
+                    if k is None:
+                        vals.append(float(g.sample()))
+                    else:
+                        got = g.sample(k)
+                        vals += [float(v) for v in got]
+                        got[...] = np.nan                   # the caller overwrites the array it was handed back
             elif opt == "alias":
                 vals = [float(v) for v in g.genrand(len(us))]
             elif opt == "n_np":
@@ -1330,6 +1339,10 @@ class CholeskyEntry(ParEntry):
                 s = cs.sample() if api == "class_scalar" else cs.sample(n)
                 s = np.atleast_2d(s)
                 if api == "class_twice":
+                    s_first = np.array(s, dtype="f8", copy=True)
+                    if isinstance(s, np.ndarray) and s.flags.writeable:
+                        s[...] = np.nan                     # the caller overwrites the sample it was handed back
+                    s = s_first
                     s2 = np.atleast_2d(cs.sample(n))
                     M2 = cs.M
                     if M2 is not M or not np.array_equal(np.asarray(M2), np.asarray(M)):
@@ -1487,7 +1500,7 @@ def source_tie(ctx):
         qdefs, qlem = c19_translate.translate_q(root)
         pins = c19_translate.check_pins(root)
     except (c19_translate.Untranslatable, SyntaxError, OSError, ValueError, IndexError, AttributeError) as e:
-        qdefs, qlem, pins = "", [], ["translate stat.interplin: %s" % e]
+        qdefs, qlem, pins = "", [], ["translation of esutil/stat/util.py or esutil/random.py failed closed: %s" % e]
     if qlem:
         qres = core.coq_lemmas(ctx.work + "/tieq", c19_translate.PRE_QT + qdefs, qlem, shard=len(qlem), tag="tieq")
         for (st, _pr), (ok, msg) in zip(qlem, qres):
@@ -1495,9 +1508,9 @@ def source_tie(ctx):
             if not ok:
                 bad.append((st, msg))
         defs = defs + "\n" + qdefs
-    ctx.obligation("tie:pinned statements (random.py _genrand_accum, random_indices; coords.atbound) (%d functions)" % len(c19_translate.PINS), not pins, "; ".join(pins))
+    ctx.obligation("tie:pinned statements (%d functions; none since round 6)" % len(c19_translate.PINS), not pins, "; ".join(pins))
     for pn in pins:
-        bad.append(("source text the hand model ModelQ.v was written from has changed: " + pn, ""))
+        bad.append(("ModelQ.v is no longer what the source says: " + pn, ""))
     lemmas = lemmas + qlem
     ctx.count("source-tie lemmas", len(lemmas))
     if bad:
